@@ -81,23 +81,24 @@ def stateful_sweep(run, pid, prefixes, escalate):
     from replay import kalman
 
     # (linear model?, editing threshold, symbols declared with sympy assumptions?)
-    variants = [(True, 3.0, False), (False, 3.0, True), (False, None, False)] + ([(True, None, True), (False, 0.5, False)] if escalate else [])
+    # (linear model?, editing threshold, symbols with sympy assumptions?, scale of prior and sensor noise)
+    variants = [(True, 3.0, False, None), (False, 3.0, True, None), (False, None, False, 1e-9)] + ([(True, None, True, None), (False, 0.5, False, None), (False, 3.0, False, 1e-9)] if escalate else [])
     fails = 0
-    for linear, k_edit, assume in variants:
+    for linear, k_edit, assume, scale in variants:
         run.native_runs += 1
-        problems, sc = kalman.native_sequence(run.seed, linear=linear, k_edit=k_edit, assumptions=assume)
+        problems, sc = kalman.native_sequence(run.seed, linear=linear, k_edit=k_edit, assumptions=assume, scale=scale)
         mine = [p for p in problems if p.startswith(tuple(prefixes)) or p.startswith(("constructing", "sequence raised"))]
         if mine:
             fails += 1
-            run.findings.append(Finding(f"{pid}.py.native_sequence", "stateful", f"one filter instance, {'linear' if linear else 'generic'} model{' with real/positive symbols' if assume else ''}, editing threshold {k_edit}: {mine[0]}", {"language": "python", "inputs": {"sequence": True, "seed": run.seed, "linear": linear, "k_edit": k_edit, "assumptions": assume}, "model_definition": sc.describe(), "oracle_verdict": mine[:6]}, True))
+            run.findings.append(Finding(f"{pid}.py.native_sequence", "stateful", f"one filter instance, {'linear' if linear else 'generic'} model{' with real/positive symbols' if assume else ''}, editing threshold {k_edit}{f', prior and sensor noise scaled by {scale}' if scale else ''}: {mine[0]}", {"language": "python", "inputs": {"sequence": True, "seed": run.seed, "linear": linear, "k_edit": k_edit, "assumptions": assume, "scale": scale}, "model_definition": sc.describe(), "oracle_verdict": mine[:6]}, True))
             break
-    run.bounded.append({"what": "stateful native sequence on ONE filter instance (two sensors of different reading dimension): Jacobians at three points with different dt, predictions at dt in {dt, 0, dt/2, 2^-40}, six alternating near/far sensor updates; each result against the exact oracle at its own inputs", "bound": f"{len(variants)} sequences (linear and generic models)", "failures": fails, "counted_as_proved": False})
+    run.bounded.append({"what": "stateful native sequence on ONE filter instance (two sensors of different reading dimension): Jacobians at three points with different dt, predictions at dt in {dt, 0, dt/2, 2^-40}, a chain of three predictions fed back into each other (inputs and earlier outputs must not change), six alternating near/far sensor updates; each result against the exact oracle at its own inputs", "bound": f"{len(variants)} sequences (linear and generic models)", "failures": fails, "counted_as_proved": False})
     return fails
 
 
 def replay_sequence(inp):
     from replay import kalman
 
-    problems, sc = kalman.native_sequence(inp.get("seed", 0), linear=inp.get("linear", False), k_edit=inp.get("k_edit"), assumptions=inp.get("assumptions", False))
+    problems, sc = kalman.native_sequence(inp.get("seed", 0), linear=inp.get("linear", False), k_edit=inp.get("k_edit"), assumptions=inp.get("assumptions", False), scale=inp.get("scale"))
     print("replay stateful sequence:", problems[:4] or "every call agrees with the oracle")
     return not problems
